@@ -419,6 +419,8 @@ func vConnSet(nc net.Conn, key string, val bool) {
 	}
 }
 
+func vTLSConfig() *tls.Config { return &tls.Config{MinVersion: tls.VersionTLS12} }
+
 // ---- threads / gates (native: real goroutines) ----
 type vGateT struct {
 	name string
@@ -441,6 +443,7 @@ func vEnvSet(key string, val bool)              {}
 func vEnvAccept(nc net.Conn)                    {}
 func vEnvAcceptErr(msg string)                  {}
 func vEnvAcceptCall(f func())                   {}
+func vEnvAcceptTempErr()                        {}
 func vEnvListeners() int                        { return -1 }
 func vEnvListenerOpen() int                     { return -1 }
 func vConnLayer(x interface{}) string           { return "" }
